@@ -1833,6 +1833,26 @@ func (w *c10World) wrongToken(a *c10Actor, z types.ZenonTokenStandard, amt *big.
 	return o
 }
 
+// shortAmount: now and then a registration carries less than the collateral it will be booked with (own PRNG).
+func (w *c10World) shortAmount(full *big.Int) *big.Int {
+	if w.hrng == nil {
+		w.hrng = rand.New(rand.NewSource(fw.SeedFor(w.c.Seed, "c10-hostile-deposits/"+w.id)))
+	}
+	if w.hrng.Intn(4) != 0 {
+		return full
+	}
+	w.c.Count("registrations_attempted_with_a_short_amount", 1)
+	switch w.hrng.Intn(4) {
+	case 0:
+		return new(big.Int).Sub(full, big.NewInt(1))
+	case 1:
+		return big.NewInt(1)
+	case 2:
+		return new(big.Int).Rsh(full, 1)
+	}
+	return new(big.Int)
+}
+
 func (w *c10World) actFuse() {
 	a := w.pick(w.actors)
 	ben := a
@@ -2035,7 +2055,7 @@ func (w *c10World) actSentinel() {
 	if w.bal(a.Addr, types.ZnnTokenStandard).Cmp(c10SentinelZnn) < 0 {
 		return
 	}
-	w.send(a, types.SentinelContract, types.ZnnTokenStandard, c10SentinelZnn, definition.ABISentinel.PackMethodPanic(definition.RegisterSentinelMethodName), "Register()", "")
+	w.send(a, types.SentinelContract, types.ZnnTokenStandard, w.shortAmount(c10SentinelZnn), definition.ABISentinel.PackMethodPanic(definition.RegisterSentinelMethodName), "Register()", "")
 }
 
 func (w *c10World) actPillar() {
@@ -2087,7 +2107,7 @@ func (w *c10World) actPillar() {
 	if w.chance(0.08) {
 		name = g.Pillar1Name // taken: failed call, refund
 	}
-	b := w.send(a, types.PillarContract, types.ZnnTokenStandard, c10PillarZnn,
+	b := w.send(a, types.PillarContract, types.ZnnTokenStandard, w.shortAmount(c10PillarZnn),
 		definition.ABIPillars.PackMethodPanic(definition.RegisterMethodName, name, prod.Addr, a.Addr, uint8(w.rng.Intn(101)), uint8(w.rng.Intn(101))), "Register("+name+",producer="+prod.Name+")", "")
 	if b != nil && name != g.Pillar1Name {
 		w.usedProd[prod.Addr] = true
